@@ -587,10 +587,13 @@ func init() {
 			tw.EagerCalls = []string{"writeFileDone", "hashFileChunk"}
 			tw.Workers = 16
 			tw.MaxPaths = 5000000
-			ee := hj("C03.endtoend", "H_C03_endtoend", "edge tree shapes between the real sender and the real receiver (canonical schedule; thorough: one preemption)")
+			ee := hj("C03.endtoend", "H_C03_endtoend", "edge tree shapes between the real sender and the real receiver (canonical schedule; thorough: one preemption before a channel operation or select, one timer event)")
 			ee.Threads, ee.Workers, ee.MaxPaths, ee.TimersNeverFire, ee.CanonicalBlock = true, 16, 5000000, true, true
 			if tier == "thorough" {
-				ee.Preempt = 1
+				// with a preemption a wake-up of an idle sender worker can be missed; the real code recovers through
+				// its 200 ms poll, so the poll timer must be allowed to fire (once per path)
+				ee.Preempt, ee.PreemptAt = 1, "select send recv"
+				ee.TimersNeverFire, ee.TimerBudget = false, 1
 			}
 			ee.Stubs = map[string]interceptFn{repoModule + "/internal/transfer.readAtWithPool": stubReadAtDirect}
 			wk := hj("C03.wake", "H_C03_wake", "one frame, one file: every blocking-point schedule plus one preemption before a lock operation (wake-up between lookup and wait)")
@@ -686,6 +689,34 @@ func init() {
 			df.Threads, df.TimersNeverFire, df.Workers, df.MaxPaths = true, true, 16, 5000000
 			df.EagerCalls = []string{"writeFileDone", "hashFileChunk"}
 			df.Preempt, df.PreemptAt = 1, "select"
+			// kill window: when the data file is (re-)created at its full size, metadata that belongs to a lost
+			// data file must already be gone - a crash in between would leave a full-size file of zeros next to
+			// metadata that claims chunks, and the next run could not tell any more
+			df.ReplayInstr = []SrcInsert{{File: "internal/transfer/multistream.go", Anchor: "f, err := os.OpenFile(filePath, os.O_RDWR|os.O_CREATE, 0644)", Text: "vBeforeCreate(filePath)", Before: true}}
+			df.OnFSEffect = func(it *Interp, e FSEffect) {
+				if e.Kind != "create" && e.Kind != "truncate" {
+					return
+				}
+				p, ok := e.Path.concrete()
+				if !ok || !strings.HasSuffix(p, "/out/f") {
+					return
+				}
+				stale := false
+				for _, t := range it.tags {
+					if t == "missing" || t == "shortened" {
+						stale = true
+					}
+				}
+				if !stale {
+					return
+				}
+				for _, n := range it.fs.nodes {
+					if np, ok := n.path.concrete(); ok && !n.removed && !n.dir && strings.Contains(np, "/out/.") && strings.HasSuffix(np, ".sbxmap") {
+						it.Assert(it.ctx.False, "metadata of a lost data file is removed before the data file is re-created at full size")
+						return
+					}
+				}
+			}
 			js = append(js, df)
 			rp := hj("C06.repair", "H_C06_repair", "second run with both real endpoints where the highest marked chunk is damaged on disk: detected by hash and repaired")
 			if tier == "thorough" {
